@@ -48,3 +48,28 @@ pub proof fn lemma_fold_dom<T: AddAssign>(m: Map<Index, T>, pairs: Seq<(Index, T
         }
     }
 }
+
+// one arrival: what `add` does to the abstract map
+pub open spec fn cs_step<T: AddAssign>(m: Map<Index, T>, id: Index, v: T) -> Map<Index, T> {
+    if m.dom().contains(id) { m.insert(id, m[id].add_spec(v)) } else { m.insert(id, v) }
+}
+// the (entity, amount) pairs as (index, amount) pairs
+pub open spec fn cs_pairs<T>(s: Seq<(Entity, T)>) -> Seq<(Index, T)> { s.map_values(|p: (Entity, T)| (p.0.0, p.1)) }
+// folding one more arrival at the END equals one step after the fold (cs_fold unfolds from the front)
+pub proof fn lemma_fold_push<T: AddAssign>(m: Map<Index, T>, pairs: Seq<(Index, T)>, id: Index, v: T)
+    ensures cs_fold(m, pairs.push((id, v))) == cs_step(cs_fold(m, pairs), id, v),
+    decreases pairs.len()
+{
+    let ext = pairs.push((id, v));
+    if pairs.len() == 0 {
+        assert(ext.drop_first() =~= Seq::<(Index, T)>::empty());
+        assert(ext[0] == (id, v));
+        assert(cs_fold(cs_step(m, id, v), ext.drop_first()) == cs_step(m, id, v));
+    } else {
+        let (i0, v0) = pairs[0];
+        let m2 = cs_step(m, i0, v0);
+        assert(ext[0] == pairs[0]);
+        assert(ext.drop_first() =~= pairs.drop_first().push((id, v)));
+        lemma_fold_push(m2, pairs.drop_first(), id, v);
+    }
+}
